@@ -108,7 +108,7 @@ Proof.
   intro H. unfold quote_bytes.
   apply (quote_forall (ok_at (position_of c)) (qmap T c) (tables_ok_map T c TOK) is_ascii).
   - reflexivity.
-  - intros d Hd. unfold hexdigit_upper, is_ascii. destruct (d <? 10); lia.
+  - reflexivity.
   - intros b Hb. apply (ok_at_ascii _ _ Hb).
   - exact H.
 Qed.
